@@ -621,7 +621,7 @@ func classifyGb(c GbCase) (bool, []string) {
 func TestGb28181Unpacker(t *testing.T) {
 	pbt.Run(t, pbt.Spec[GbCase]{
 		ID: "C13", Name: "gb28181-ps-rtp", Gen: genGbCase(false), Run: runGbL1, Classify: classifyGb, Isolate: true,
-		Quick: 1500, Thorough: 6000,
+		Quick: 1000, Thorough: 6000,
 	})
 }
 
